@@ -133,6 +133,7 @@ EditsSome == {[kind |-> "edit", res |-> "r1", field |-> "f1", value |-> "z"],
 
 EditsNew == {[kind |-> "oobnew", res |-> r, field |-> "", value |-> own] :
                 r \in {"r3", "r2"}, own \in {"none", "othername", "me"}}
+EditsSomeNew == EditsSome \cup EditsNew
 GuardTrue(m) == TRUE
 \* simulation bias: on an empty ledger start with an install (other operations just fail at once)
 GuardBias(m) == (Used = {}) => (m.kind = "install" \/ (m.kind # "install" /\ m = U(m.kind, m.chart)))
